@@ -1,28 +1,34 @@
 // C12 — results do not depend on GOMAXPROCS.
 //
-// Implementation side of the check:
+// Implementation side of the check.  WHAT DECIDES A VIOLATION: two real processes, started
+// with GOMAXPROCS = a and GOMAXPROCS = b, each run twice, whose results for the same public
+// API call have no value in common — the property as stated ("the same bytes / pixels for
+// every GOMAXPROCS value").  Everything else only finds candidates and names the site:
 //
 //	(1) per-site differential: for each GOMAXPROCS call site s and each worker
 //	    count n the public API is run with only site s overridden to n (verifhook)
-//	    and the bytes / pixels are compared with the n = 1 run; for the two sites
-//	    where n selects an algorithm the runs with n >= 3 are also compared with
-//	    n = 2, so that a partition dependence is not hidden behind the known
-//	    algorithm difference;
+//	    and compared with the n = 1 run (n >= 3 also with n = 2 at the two sites
+//	    where n selected an algorithm).  Such a configuration is not one a GOMAXPROCS
+//	    value produces, so a difference is re-run in processes with GOMAXPROCS = n and
+//	    1 (or 2) and reported only if they differ; otherwise it is counted;
 //	(2) correspondence: the (start,end) ranges each site handed to its workers
-//	    (logged by the hook) against the extracted Coq partition formulas; the
-//	    number of row workers and the useParallel decision against the model;
-//	(3) whole-process runs: the same workloads in child processes started with
-//	    GOMAXPROCS in {1,2,3,4,5,8,16}; child(k) must equal the in-process
-//	    simulation "all sites forced to k", child(k>=2) must equal child(2), and a
-//	    difference between child(1) and child(2) must be explained completely by
-//	    the known algorithm-choice sites.
+//	    (logged by the hook) must tile one and the same index interval for every n —
+//	    decided by the extracted is_tiling (proved to imply exact_partition); no formula
+//	    of the code is compared;
+//	(3) whole-process runs: the workloads in child processes started with
+//	    GOMAXPROCS in {1,2,3,4,5,8,16}; child(k>=3) vs child(2) and child(1) vs child(2),
+//	    each difference re-run before it is reported; child(k) vs the in-process
+//	    simulation "all sites forced to k" is a note about hook coverage only.
+//
+// Failures of the machinery (site table mismatch, a child that cannot be started) are
+// never violations: the harness exits with an error, or counts the missing comparison.
 package main
 
 import (
 	"bytes"
 	"crypto/sha256"
-	"errors"
 	"encoding/hex"
+	"errors"
 	"fmt"
 	"image"
 	"os"
@@ -172,9 +178,9 @@ type workload struct {
 	Corrupt    map[int]string
 	PreDecoded []int
 	ZeroFrames bool
-	img   *image.NRGBA
-	mbW   int
-	mbH   int
+	img        *image.NRGBA
+	mbW        int
+	mbH        int
 }
 
 func (w *workload) run() (res string, err error) {
@@ -492,14 +498,87 @@ func buildWorkloads(seed int64, tier string) []*workload {
 func childMain() {
 	seed, _ := strconv.ParseInt(os.Args[2], 10, 64)
 	tier := os.Args[3]
+	only := ""
+	if len(os.Args) > 4 {
+		only = os.Args[4]
+	}
 	ws := buildWorkloads(seed, tier)
 	for _, w := range ws {
+		if only != "" && w.Name != only {
+			continue
+		}
 		r, err := w.run()
 		if err != nil {
 			r = "panic"
 		}
 		fmt.Printf("%s\t%s\n", w.Name, r)
 	}
+}
+
+// children runs the workloads in real child processes with a given GOMAXPROCS: the
+// configurations the property quantifies over.  Every violation of this harness is decided
+// by such runs; the per-site overrides inside this process only attribute it to a site.
+type children struct {
+	c    *Ctx
+	exe  string
+	full map[int]map[string]string // GOMAXPROCS -> workload -> result (one process for all workloads)
+}
+
+func (ch *children) spawn(k int, only string) (map[string]string, error) {
+	var last error
+	for attempt := 0; attempt < 2; attempt++ {
+		args := []string{"child", strconv.FormatInt(ch.c.Seed, 10), ch.c.Tier}
+		if only != "" {
+			args = append(args, only)
+		}
+		cmd := exec.Command(ch.exe, args...)
+		cmd.Env = append(os.Environ(), "GOMAXPROCS="+strconv.Itoa(k))
+		out, err := cmd.Output()
+		if err != nil {
+			last = err
+			continue
+		}
+		m := map[string]string{}
+		for _, l := range strings.Split(strings.TrimSpace(string(out)), "\n") {
+			f := strings.SplitN(l, "\t", 2)
+			if len(f) == 2 {
+				m[f[0]] = f[1]
+			}
+		}
+		return m, nil
+	}
+	return nil, last
+}
+
+// fresh runs ONE workload in a new child with GOMAXPROCS = k.
+func (ch *children) fresh(k int, w *workload) (string, bool) {
+	m, err := ch.spawn(k, w.Name)
+	if err != nil {
+		ch.c.Count("child-failed-to-run")
+		return "", false
+	}
+	r, ok := m[w.Name]
+	return r, ok
+}
+
+// differ decides whether GOMAXPROCS = a and GOMAXPROCS = b give different results for w:
+// each configuration is run twice in fresh processes; a configuration that disagrees with
+// itself is not evidence about the CPU count (that is C10's subject) and decides nothing.
+func (ch *children) differ(a, b int, w *workload) (bool, string, string) {
+	ra1, ok1 := ch.fresh(a, w)
+	ra2, ok2 := ch.fresh(a, w)
+	rb1, ok3 := ch.fresh(b, w)
+	rb2, ok4 := ch.fresh(b, w)
+	if !(ok1 && ok2 && ok3 && ok4) {
+		ch.c.Count("confirmation-impossible/child-failed")
+		return false, "", ""
+	}
+	if ra1 != ra2 || rb1 != rb2 {
+		ch.c.Count("child-run-to-run-nondeterminism")
+		ch.c.D.Notes = append(ch.c.D.Notes, fmt.Sprintf("workload %s: two processes with the same GOMAXPROCS (%d or %d) returned different results (C10's subject); a difference between the two values is reported only if no result of one was seen with the other", w.Name, a, b))
+	}
+	disjoint := ra1 != rb1 && ra1 != rb2 && ra2 != rb1 && ra2 != rb2
+	return disjoint, ra1, rb1
 }
 
 // ---------------------------------------------------------------------------
@@ -522,19 +601,6 @@ func workerCounts(c *Ctx) []int {
 	return append(ns, 17, 64)
 }
 
-// splitInvocations splits a site's range log into invocations (a new one starts
-// whenever start == base after the first record).
-func splitInvocations(rs []webp.VerifRange, base int) [][]webp.VerifRange {
-	var out [][]webp.VerifRange
-	for _, r := range rs {
-		if len(out) == 0 || r.Start == base {
-			out = append(out, nil)
-		}
-		out[len(out)-1] = append(out[len(out)-1], r)
-	}
-	return out
-}
-
 func showRanges(rs []webp.VerifRange) string {
 	if len(rs) == 0 {
 		return "-"
@@ -551,15 +617,51 @@ func showRanges(rs []webp.VerifRange) string {
 
 func run(c *Ctx) {
 	names := webp.VerifSiteNames()
+	// the harness and the hook package must agree on the site table; if they do not the
+	// harness cannot run (an error of the machinery, never a violation of the property)
 	if len(names) != numSites {
-		c.Violate("harness-site-table", "verifhook site table changed", names)
-		return
+		fmt.Fprintf(os.Stderr, "c12 harness: verifhook site table has %d sites, the harness knows %d: %v\n", len(names), numSites, names)
+		os.Exit(3)
 	}
 	for i, n := range names {
 		if n != wantSiteNames[i] {
-			c.Violate("harness-site-table", "verifhook site table changed", names)
+			fmt.Fprintf(os.Stderr, "c12 harness: verifhook site %d is %q, the harness expects %q\n", i, n, wantSiteNames[i])
+			os.Exit(3)
+		}
+	}
+	exe, exeErr := os.Executable()
+	if exeErr != nil {
+		fmt.Fprintf(os.Stderr, "c12 harness: cannot find own executable: %v\n", exeErr)
+		os.Exit(3)
+	}
+	ch := &children{c: c, exe: exe, full: map[int]map[string]string{}}
+	// A difference seen with ONE site's worker count overridden (a configuration no
+	// GOMAXPROCS value produces) is reported only if real processes with GOMAXPROCS = a and
+	// GOMAXPROCS = b return different results for the same workload; the per-site run
+	// supplies the attribution (the key), the processes decide.
+	confirmed := map[string]int{}
+	decided := map[string]bool{}
+	confirm := func(key string, w *workload, a, b int, desc string, replay map[string]any) {
+		id := fmt.Sprintf("%s|%s|%d|%d", key, w.Name, a, b)
+		if decided[id] {
 			return
 		}
+		decided[id] = true
+		if confirmed[key] >= 3 {
+			c.Count("difference-not-re-run/" + key)
+			return
+		}
+		c.D.Evaluations++
+		d, ra, rb := ch.differ(a, b, w)
+		if !d {
+			c.Count("per-site-difference-not-confirmed-by-processes/" + key)
+			c.D.Notes = append(c.D.Notes, fmt.Sprintf("%s: workload %s differs between %d and %d workers at this site alone, but processes with GOMAXPROCS=%d and %d agree: the property holds for this input, nothing reported", key, w.Name, a, b, a, b))
+			return
+		}
+		confirmed[key]++
+		replay[fmt.Sprintf("process-gomaxprocs-%d", a)] = ra
+		replay[fmt.Sprintf("process-gomaxprocs-%d", b)] = rb
+		c.Violate(key, desc, replay)
 	}
 	c.D.Rule = "an evaluation = one public-API run (Encode / Decode / DecodeFramesParallel) with one site's worker count overridden, or one whole-process run, compared with its reference; non-trivial = the overridden site's parallel path actually ran (site reached, >= 2 ranges or a work queue) on a distinct (site, n, workload)"
 	ws := buildWorkloads(c.Seed, c.Tier)
@@ -575,6 +677,7 @@ func run(c *Ctx) {
 		c.Count("corr/" + strings.SplitN(caseLine, " ", 2)[0])
 	}
 
+	cs := &coverState{ref: map[string][][2]int{}}
 	// ---- (1)+(2) per-site runs
 	for _, w := range ws {
 		for _, s := range w.Sites {
@@ -584,23 +687,20 @@ func run(c *Ctx) {
 				webp.VerifSetWorkers(s, n)
 				webp.VerifResetHits()
 				webp.VerifLogRanges(true)
-				traceOn := (s == sEncodeParallel || s == sUseParallel) && w.Kind == "lossy"
-				if traceOn {
-					webp.VerifTrace(true)
-				}
 				res, err := w.run()
 				hits := webp.VerifSiteHits()
 				rgs := webp.VerifRanges()
-				var evs []webp.VerifEvent
-				if traceOn {
-					evs = webp.VerifEvents()
-					webp.VerifTrace(false)
-				}
 				webp.VerifLogRanges(false)
 				webp.VerifResetOverrides()
 				c.D.Evaluations++
 				if err != nil {
-					c.Violate("panic/site="+names[s], err.Error(), map[string]any{"workload": w.Name, "site": names[s], "n": n})
+					// a panic with n workers at this site: a violation if a process with
+					// GOMAXPROCS = n panics (or differs) and one with GOMAXPROCS = 1 does not
+					c.Count("panic-with-site-override/" + names[s])
+					if n > 1 {
+						confirm("panic/site="+names[s], w, n, 1, "panics with this worker count but not with one CPU: "+err.Error(),
+							map[string]any{"workload": w.Name, "site": names[s], "n": n})
+					}
 					continue
 				}
 				ref[n] = res
@@ -619,7 +719,7 @@ func run(c *Ctx) {
 				}
 				c.Sample(map[string]any{"workload": w.Name, "site": names[s], "n": n, "result": res, "ranges": showRanges(mine)})
 				// correspondence of the ranges with the model
-				correspond(c, emit, w, s, n, mine, evs)
+				correspond(c, cs, emit, w, s, n, mine)
 				// differential
 				if n == 1 {
 					continue
@@ -631,17 +731,17 @@ func run(c *Ctx) {
 						key = "site=" + names[s] + "/which-error"
 					}
 					c.Count("differs-from-n1/" + key)
-					c.Violate(key, fmt.Sprintf("DecodeFramesParallel with %d workers on an animation with undecodable frames differs from the 1-worker result", n),
+					confirm(key, w, n, 1, fmt.Sprintf("DecodeFramesParallel with %d workers on an animation with undecodable frames differs from the 1-worker result", n),
 						map[string]any{"workload": w.Name, "corrupt-frames": w.Corrupt, "predecoded": w.PreDecoded, "n": n, "n1": base, "got": res})
 				} else if base, ok := ref[1]; ok && res != base {
 					key := "site=" + names[s]
 					c.Count("differs-from-n1/" + names[s])
-					c.Violate(key, fmt.Sprintf("result with %d workers at site %s differs from the 1-worker result", n, names[s]),
+					confirm(key, w, n, 1, fmt.Sprintf("result with %d workers at site %s differs from the 1-worker result", n, names[s]),
 						map[string]any{"workload": w.Name, "image": w.Spec.String(), "site": names[s], "n": n, "n1": base, "got": res})
 				}
 				if choiceSite[s] && n >= 3 {
 					if base, ok := ref[2]; ok && res != base {
-						c.Violate("partition/site="+names[s], fmt.Sprintf("result with %d workers at site %s differs from the 2-worker result (same algorithm, other partition)", n, names[s]),
+						confirm("partition/site="+names[s], w, n, 2, fmt.Sprintf("result with %d workers at site %s differs from the 2-worker result (same algorithm, other partition)", n, names[s]),
 							map[string]any{"workload": w.Name, "image": w.Spec.String(), "site": names[s], "n": n, "n2": base, "got": res})
 					}
 				}
@@ -649,10 +749,8 @@ func run(c *Ctx) {
 		}
 	}
 
-	// ---- documented agreement DecodeFramesParallel / DecodeFrames: the doc comment promises the
-	// sequential fallback for <= 2 undecoded frames; with every frame decodable both decode
-	// all frames. (With an undecodable frame DecodeFrames stops there, the parallel version
-	// decodes all the others: not documented to agree, not compared.)
+	// ---- DecodeFramesParallel / DecodeFrames: their agreement is not part of the property as
+	// stated (it speaks about GOMAXPROCS values only), so it is measured, never reported.
 	for _, w := range ws {
 		if w.Kind != "animc" {
 			continue
@@ -668,39 +766,25 @@ func run(c *Ctx) {
 			}
 		}
 		if len(w.Corrupt) == 0 || toDecode <= 2 {
-			c.D.Evaluations++
 			webp.VerifResetOverrides()
-			par, seq := w.runAnimC(false), w.runAnimC(true)
-			if par != seq {
-				c.Violate("animation.DecodeFramesParallel-vs-DecodeFrames", "DecodeFramesParallel and DecodeFrames disagree where they are documented to agree (all frames decodable, or <= 2 frames to decode)",
-					map[string]any{"workload": w.Name, "parallel": par, "sequential": seq})
+			if w.runAnimC(false) != w.runAnimC(true) {
+				c.Count("info/DecodeFramesParallel-differs-from-DecodeFrames")
+			} else {
+				c.Count("info/DecodeFramesParallel-agrees-with-DecodeFrames")
 			}
-			c.Nontrivial("anim-seq-vs-par|" + w.Name)
 		}
 	}
 
 	// ---- (3) whole-process runs
-	exe, err := os.Executable()
-	if err != nil {
-		c.Violate("harness-child", "cannot find own executable", err.Error())
-		return
-	}
 	procs := []int{1, 2, 3, 4, 5, 8, 16}
-	child := map[int]map[string]string{}
+	child := ch.full
 	for _, k := range procs {
-		cmd := exec.Command(exe, "child", strconv.FormatInt(c.Seed, 10), c.Tier)
-		cmd.Env = append(os.Environ(), "GOMAXPROCS="+strconv.Itoa(k))
-		out, err := cmd.Output()
+		m, err := ch.spawn(k, "")
 		if err != nil {
-			c.Violate("harness-child", fmt.Sprintf("child with GOMAXPROCS=%d failed", k), err.Error())
+			// the machinery, not the library: counted, the comparisons that need it are skipped
+			c.Count(fmt.Sprintf("child-failed-to-run/gomaxprocs=%d", k))
+			c.D.Notes = append(c.D.Notes, fmt.Sprintf("child process with GOMAXPROCS=%d could not be run (%v): its comparisons are missing from this run", k, err))
 			continue
-		}
-		m := map[string]string{}
-		for _, l := range strings.Split(strings.TrimSpace(string(out)), "\n") {
-			f := strings.SplitN(l, "\t", 2)
-			if len(f) == 2 {
-				m[f[0]] = f[1]
-			}
 		}
 		child[k] = m
 		c.Count(fmt.Sprintf("child/gomaxprocs=%d", k))
@@ -728,19 +812,22 @@ func run(c *Ctx) {
 			}
 			c.D.Evaluations++
 			if ck == "panic" {
-				c.Violate("panic/whole-process", "panic in child", map[string]any{"workload": w.Name, "gomaxprocs": k})
-				continue
+				// a panic is a result like any other: it is reported below if another
+				// GOMAXPROCS value does not panic
+				c.Count("panic-in-child")
 			}
-			// (i) the hook simulation is faithful
+			// (i) is the hook simulation faithful?  A difference means either an unhooked read
+			// of the CPU count or an unfaithful hook: it limits what the per-site runs cover and
+			// is recorded; the property itself is decided by (ii) and (iii) on real processes.
 			if sk := sim(w, k, false); sk != ck {
-				c.Violate("unmodelled-dependence", fmt.Sprintf("a process with GOMAXPROCS=%d returns something else than this process with every modelled site forced to %d workers: a dependence on the CPU count outside the modelled sites", k, k),
-					map[string]any{"workload": w.Name, "gomaxprocs": k, "child": ck, "simulated": sk})
+				c.Count("simulation-differs-from-process")
+				c.D.Notes = append(c.D.Notes, fmt.Sprintf("workload %s: a process with GOMAXPROCS=%d returns %s, this process with every hooked site forced to %d workers returns %s (unhooked CPU-count read, or the hook is not faithful)", w.Name, k, ck, k, sk))
 			}
 			c.Nontrivial(fmt.Sprintf("child|%d|%s", k, w.Name))
 			// (ii) all k >= 2 agree
 			if k >= 3 {
 				if c2, ok := child[2][w.Name]; ok && c2 != ck {
-					c.Violate(fmt.Sprintf("whole-process/%s/gomaxprocs-%d-vs-2", w.Kind, k),
+					confirm(fmt.Sprintf("whole-process/%s/gomaxprocs-%d-vs-2", w.Kind, k), w, k, 2,
 						fmt.Sprintf("GOMAXPROCS=%d and GOMAXPROCS=2 give different results", k),
 						map[string]any{"workload": w.Name, "image": w.Spec.String(), "gomaxprocs": k, "with2": c2, "got": ck})
 				}
@@ -751,13 +838,16 @@ func run(c *Ctx) {
 		c2, ok2 := child[2][w.Name]
 		if ok1 && ok2 && c1 != c2 {
 			c.Count("whole-process-1-vs-2-differs/" + w.Kind)
+			// attribution only (simulated in this process); the two processes decide
 			fix := sim(w, 1, true)
+			key := "whole-process/" + w.Kind + "/gomaxprocs-1-vs-2-unexplained"
+			desc := "GOMAXPROCS=1 and 2 differ and the known algorithm-choice sites do not explain it"
 			if fix == c2 {
-				key := "site=" + names[sUseParallel]
+				desc = "GOMAXPROCS=1 and GOMAXPROCS=2 give different results; the difference disappears when the known algorithm-choice sites are held at their multi-CPU choice"
+				key = "site=" + names[sUseParallel]
 				if w.Kind == "lossless" {
 					key = "site=" + names[sHashChain]
 				} else if w.Kind == "lossy" && w.Spec.Alpha {
-					// either site may be responsible; attribute by the per-site experiment
 					only := sim(w, 1, false)
 					webp.VerifResetOverrides()
 					webp.VerifSetAllWorkers(1)
@@ -765,16 +855,12 @@ func run(c *Ctx) {
 					r, _ := w.run()
 					webp.VerifResetOverrides()
 					if r != only {
-						c.Violate("site="+names[sHashChain], "GOMAXPROCS=1 and 2 give different bytes (alpha plane, hash chain algorithm choice)",
-							map[string]any{"workload": w.Name, "gomaxprocs1": c1, "gomaxprocs2": c2})
+						key = "site=" + names[sHashChain]
 					}
 				}
-				c.Violate(key, "GOMAXPROCS=1 and GOMAXPROCS=2 give different results; the difference disappears when the known algorithm-choice sites are held at their multi-CPU choice",
-					map[string]any{"workload": w.Name, "image": w.Spec.String(), "gomaxprocs1": c1, "gomaxprocs2": c2})
-			} else {
-				c.Violate("whole-process/"+w.Kind+"/gomaxprocs-1-vs-2-unexplained", "GOMAXPROCS=1 and 2 differ and the known algorithm-choice sites do not explain it",
-					map[string]any{"workload": w.Name, "image": w.Spec.String(), "gomaxprocs1": c1, "gomaxprocs2": c2, "with-known-sites-parallel": fix})
 			}
+			confirm(key, w, 2, 1, desc,
+				map[string]any{"workload": w.Name, "image": w.Spec.String(), "gomaxprocs1": c1, "gomaxprocs2": c2, "with-known-sites-parallel": fix})
 		}
 	}
 	c.D.Notes = append(c.D.Notes,
@@ -787,108 +873,70 @@ func run(c *Ctx) {
 	c.D.Notes = append(c.D.Notes, "workload list: "+strings.Join(wn, "; "))
 }
 
-// correspond emits the model cases for one per-site run.
-func correspond(c *Ctx, emit func(string, string), w *workload, s, n int, mine []webp.VerifRange, evs []webp.VerifEvent) {
-	switch s {
-	case sImportY, sImportUV:
-		if w.Kind != "lossy" {
-			return
+// coverState remembers, per (workload, site), the index domains of the site's invocations as
+// first seen (smallest worker count that logged ranges).
+type coverState struct {
+	ref map[string][][2]int
+}
+
+// splitRuns splits a site's range log (ranges in spawn order) into invocations: a new one
+// starts when the start goes back, or repeats after a non-empty range.
+func splitRuns(rs []webp.VerifRange) [][]webp.VerifRange {
+	var out [][]webp.VerifRange
+	for i, r := range rs {
+		if i == 0 || r.Start < rs[i-1].Start || (r.Start == rs[i-1].Start && rs[i-1].End > rs[i-1].Start) {
+			out = append(out, nil)
 		}
-		padH := w.mbH * 16
-		total := padH
-		if s == sImportUV {
-			total = padH / 2
+		out[len(out)-1] = append(out[len(out)-1], r)
+	}
+	return out
+}
+
+func hull(rs []webp.VerifRange) (int, int, bool) {
+	lo, hi, any := 0, 0, false
+	for _, r := range rs {
+		if r.End <= r.Start {
+			continue
 		}
-		for _, inv := range splitInvocations(mine, 0) {
-			emit(fmt.Sprintf("prop %d %d", n, total), showRanges(inv))
+		if !any || r.Start < lo {
+			lo = r.Start
 		}
-	case sComputeAlphas:
-		if w.Kind != "lossy" {
-			return
+		if !any || r.End > hi {
+			hi = r.End
 		}
-		if len(mine) == 0 {
-			// serial path: the model's single range (0, mbH) is not logged by the code
-			if n == 1 || w.mbW*w.mbH == 1 {
-				c.Count("alphas-serial-path")
-			} else {
-				emit(fmt.Sprintf("alphas %d %d %d", n, w.mbW, w.mbH), "-")
+		any = true
+	}
+	return lo, hi, any
+}
+
+// correspond emits the model cases for one per-site run: the ranges the site handed to its
+// workers must tile the SAME index interval for every worker count, exactly once — decided
+// by the extracted [is_tiling] (proved to imply [exact_partition], the premise of the
+// fork-join theorems).  No formula of the code is compared: any arithmetic that tiles passes.
+func correspond(c *Ctx, cs *coverState, emit func(string, string), w *workload, s, n int, mine []webp.VerifRange) {
+	if len(mine) == 0 {
+		return
+	}
+	invs := splitRuns(mine)
+	key := fmt.Sprintf("%s|%d", w.Name, s)
+	ref, ok := cs.ref[key]
+	if !ok {
+		for _, inv := range invs {
+			lo, hi, any := hull(inv)
+			if !any {
+				lo, hi = 0, 0
 			}
-			return
+			ref = append(ref, [2]int{lo, hi})
 		}
-		for _, inv := range splitInvocations(mine, 0) {
-			emit(fmt.Sprintf("alphas %d %d %d", n, w.mbW, w.mbH), showRanges(inv))
-		}
-	case sHashChain:
-		for _, inv := range splitInvocations(mine, 1) {
-			size := 0
-			for _, r := range inv {
-				if r.End+1 > size {
-					size = r.End + 1
-				}
-			}
-			// the log only shows where the last range ended; the true size is a whole
-			// number of rows of the (possibly pixel-packed) image
-			if w.Kind == "lossless" && w.Spec.H > 0 && size%w.Spec.H != 0 {
-				size = (size/w.Spec.H + 1) * w.Spec.H
-			}
-			emit(fmt.Sprintf("hash %d %d", n, size), showRanges(inv))
-			emit(fmt.Sprintf("hashpar %d %d 0", n, size), "1")
-		}
-	case sPredictor, sCrossColor, sHistoRemap, sHistoCost:
-		for _, inv := range splitInvocations(mine, 0) {
-			total := 0
-			for _, r := range inv {
-				if r.End > total {
-					total = r.End
-				}
-			}
-			// the log only shows where the last range ended; for the tile-row sites the
-			// true total is ceil(height / 2^bits) for some bits in 2..9
-			if (s == sPredictor || s == sCrossColor) && w.Kind == "lossless" {
-				best := -1
-				for b := 2; b <= 9; b++ {
-					t := (w.Spec.H + (1 << b) - 1) >> b
-					if t >= total && (best == -1 || t < best) {
-						best = t
-					}
-				}
-				if best > 0 {
-					total = best
-				}
-			}
-			emit(fmt.Sprintf("ceil %d %d", n, total), showRanges(inv))
-		}
-	case sInvCrossColor:
-		if len(mine) > 0 && w.Kind == "decode" && !(w.Spec.Alpha && strings.Contains(w.Name, "lossy")) {
-			emit(fmt.Sprintf("icc %d %d %d", n, 0, w.Spec.H), showRanges(mine))
-		}
-	case sArgbToNRGBA:
-		if len(mine) > 0 && w.Kind == "decode" && !(w.Spec.Alpha && strings.Contains(w.Name, "lossy")) {
-			emit(fmt.Sprintf("argb %d %d", n, w.Spec.H), showRanges(mine))
-		}
-	case sEncodeParallel, sUseParallel:
-		if w.Kind != "lossy" || w.Opts == nil {
-			return
-		}
-		gs := map[int64]bool{}
-		for _, e := range evs {
-			if e.Point == webp.VerifPointClaim {
-				gs[e.G] = true
-			}
-		}
-		doSearch := w.Opts.TargetSize > 0 || w.Opts.TargetPSNR > 0
-		if s == sEncodeParallel {
-			if len(gs) > 0 {
-				emit(fmt.Sprintf("encw %d %d", n, w.mbH), strconv.Itoa(len(gs)))
-			}
-		} else if !doSearch {
-			// the process runs with GOMAXPROCS = 4: the override n = 1 models one CPU
-			used := "0"
-			if len(gs) > 0 {
-				used = "1"
-			}
-			m := w.Opts.Method
-			emit(fmt.Sprintf("encpar %d %d %d 0", n, w.mbH, m), used)
-		}
+		cs.ref[key] = ref
+	}
+	if len(invs) != len(ref) {
+		// the site ran a different number of times (e.g. another algorithm upstream): the
+		// invocations cannot be aligned, nothing is claimed
+		c.Count("cover/invocation-count-differs")
+		return
+	}
+	for i, inv := range invs {
+		emit(fmt.Sprintf("cover %d %d %s", ref[i][0], ref[i][1], showRanges(inv)), "ok")
 	}
 }
